@@ -7,6 +7,7 @@
                        Desync (it does not receive its own response)
    run_pipe / observe: M_Wire's single-call socket model / reference semantics (C01_pipe_refines links them)
    norm v sc p       : p, with an implementation fault the variant answers as an init error written as that init error
+   own x             : Obs (run_pipe (fst x) (snd x)) -- what the call observes on a fresh connection
 
    wellbehaved v p sc (the class of the theorems; every excluded class is refuted in refuted/R_C04.v):
      unary  : any logs; a recording callback -- or ANY callback when the variant drains on every exception
@@ -20,9 +21,14 @@ From VGI Require Import Corr M_Wire L_Wire M_WireConn L_WireConn.
 Import ListNotations.
 Open Scope N_scope.
 
-(* every call on a clean connection observes exactly the single-call socket model: no side condition *)
-Theorem C04_obs_is_run_pipe : forall v p sc, fst (conn_call v p sc) = run_pipe (norm v sc p) sc.
+(* every call on a clean connection observes exactly the single-call socket model (M_Wire.run_pipe, which since repo
+   735475d answers implementation faults as init errors) -- unless the source lacks the guards AND the call is such a
+   fault; with the guards there is no side condition at all *)
+Theorem C04_obs_is_run_pipe : forall v p sc, uncaught_fault v p sc = false -> fst (conn_call v p sc) = run_pipe p sc.
 Proof. exact conn_call_obs. Qed.
+
+Theorem C04_guards_catch_every_fault : forall v p sc, checks_stream_result v = true -> uncaught_fault v p sc = false.
+Proof. exact checks_no_uncaught. Qed.
 
 Theorem C04_clean_after : forall v p sc, wellbehaved v p sc = true -> clean (snd (conn_call v p sc)) = true.
 Proof. exact conn_clean_after. Qed.
@@ -31,24 +37,37 @@ Proof. exact conn_clean_after. Qed.
 Theorem C04_unary_clean_whatever_the_callback : forall u c, clean (snd (conn_call v_repaired (PUnary u) (SUnary c))) = true.
 Proof. intros u c. apply conn_clean_after. destruct c; reflexivity. Qed.
 
-(* the observation of a history = the per-call observations, for call lists of ANY length *)
+(* the observation of a history = the per-call observations (own x = Obs (run_pipe ..)), for call lists of ANY length *)
 Theorem C04_history_correct : forall v calls, Forall (wb v) calls ->
-  run_seq v conn0 calls = map (own v) calls /\ clean (conn_after_seq v conn0 calls) = true.
+  run_seq v conn0 calls = map own calls /\ clean (conn_after_seq v conn0 calls) = true.
 Proof. intros v calls H. exact (run_seq_wb v calls conn0 eq_refl H). Qed.
 
 (* ... and the NEXT call, whatever it is (well-behaved or not), receives its own response *)
-Theorem C04_next_call_correct : forall v hist p sc, Forall (wb v) hist ->
-  run_seq v conn0 (hist ++ [(p, sc)]) = map (own v) hist ++ [Obs (run_pipe (norm v sc p) sc)].
+Theorem C04_next_call_correct : forall v hist p sc, Forall (wb v) hist -> uncaught_fault v p sc = false ->
+  run_seq v conn0 (hist ++ [(p, sc)]) = map own hist ++ [Obs (run_pipe p sc)].
 Proof. exact next_call_own. Qed.
 
 (* ... which is the reference semantics of that call under C01's side conditions *)
 Theorem C04_next_call_reference : forall v hist p sc, Forall (wb v) hist ->
-  legal (norm v sc p) sc = true -> records sc = true -> no_exc_logs (norm v sc p) = true -> pipe_reads (norm v sc p) sc = true ->
-  run_seq v conn0 (hist ++ [(p, sc)]) = map (own v) hist ++ [Obs (cut (observe (norm v sc p) sc))].
+  legal p sc = true -> records sc = true -> no_exc_logs p = true -> pipe_reads p sc = true ->
+  run_seq v conn0 (hist ++ [(p, sc)]) = map own hist ++ [Obs (cut (observe p sc))].
 Proof.
-  intros v hist p sc Hh H1 H2 H3 H4. rewrite (next_call_own v hist p sc Hh).
-  unfold own at 2. cbn [fst snd]. rewrite (pipe_refines _ _ H1 H2 H3 H4). reflexivity.
+  intros v hist p sc Hh H1 H2 H3 H4.
+  assert (Hu : uncaught_fault v p sc = false).
+  { unfold legal in H1. apply andb_true_iff in H1 as [Hk _].
+    destruct p as [u|sp]; destruct sc as [c|h k a c|h n a c]; try reflexivity; cbn in Hk |- *;
+      apply andb_true_iff in Hk as [Hi Hd]; unfold eff_init, init_outcome;
+      destruct (ires sp); try discriminate Hi; try reflexivity;
+      destruct h; try reflexivity; destruct (hdr sp); try discriminate Hd; reflexivity. }
+  rewrite (next_call_own v hist p sc Hh Hu). unfold own at 2. cbn [fst snd].
+  rewrite (pipe_refines _ _ H1 H2 H3 H4). reflexivity.
 Qed.
+
+(* a well-behaved call (answered faults on header methods included) observes the reference semantics of the init error
+   it is answered with *)
+Theorem C04_wellbehaved_reference : forall v p sc, (match sc with SUnary _ => False | _ => True end) -> wellbehaved v p sc = true ->
+  run_pipe p sc = cut (observe (norm v sc p) sc).
+Proof. exact wb_observe. Qed.
 
 (* progress: in a history of well-behaved calls no call is Desync and no client read waits for bytes that are never written *)
 Theorem C04_no_stuck : forall v calls, Forall (wb v) calls ->
@@ -61,11 +80,13 @@ Proof.
 Qed.
 
 Print Assumptions C04_obs_is_run_pipe.
+Print Assumptions C04_guards_catch_every_fault.
 Print Assumptions C04_clean_after.
 Print Assumptions C04_unary_clean_whatever_the_callback.
 Print Assumptions C04_history_correct.
 Print Assumptions C04_next_call_correct.
 Print Assumptions C04_next_call_reference.
+Print Assumptions C04_wellbehaved_reference.
 Print Assumptions C04_no_stuck.
 
 (* ---- non-vacuity: one history with a failure of (almost) every kind, all inside `wellbehaved v_repaired` *)
